@@ -555,10 +555,10 @@ static void runCase(verif::Run& run, const Cfg& cfg) {
         Judge* J = new Judge(run, cfg, pass == 1 || run.verbose);
         uint64_t outcome = verif::hashStr(INTEG_NAMES[cfg.integ]);
         if (sigsetjmp(g_jmp, 1)) {
-            run.expect(false, std::string(INTEG_NAMES[cfg.integ]) + "/simulation-never-returns", [&] { return "the simulation did not finish within 20 s: " + cfg.str() + "\n  " + cfg.describe() + "\n" + J->trace; }, [&] { return "cfg=" + cfg.str() + "\n" + J->trace; });
+            run.expect(false, std::string(INTEG_NAMES[cfg.integ]) + "/simulation-never-returns", [&] { return "the simulation did not finish within 8 s: " + cfg.str() + "\n  " + cfg.describe() + "\n" + J->trace; }, [&] { return "cfg=" + cfg.str() + "\n" + J->trace; });
             return;
         }
-        alarm(20);
+        alarm(8);
         bool threw = false; std::string what;
         try { simulate(run, cfg, *J, outcome); }
         catch (const std::exception& e) { threw = true; what = e.what(); }
@@ -574,7 +574,7 @@ static void runCase(verif::Run& run, const Cfg& cfg) {
 
 int main(int argc, char** argv) {
     verif::Run run("C22", argc, argv);
-    run.setDeadline(240, 2400);
+    run.setDeadline(1200, 5400);   // safety net only: quick needs ~20-40 s on 16 idle cores (about 320 CPU-s), see notes
     const bool thorough = run.thorough();
     run.rule = "a case = (value set, integrator, crossing pattern, direction-mask combination, action of handler 0, fixed/controlled step, report grid, scheduled-handler variant, driver); "
                "every case is one complete simulation to the final time, judged at every ReachedEventTrigger (raw driver) and on its handler log and report states (both drivers) against an analytic reference; "
